@@ -215,8 +215,12 @@ def run_walk(repo, tier, seed, only=None):
         if sorted(got, key=repr) != sorted(ref, key=repr) or len(got) != len(set(i for _, i in got)):
             R.fail('bounded:C14+C17.tree-walk-yields-every-node-exactly-once-with-its-path', f'doc={text!r}: walk {len(got)} entries, reference {len(ref)}', {'family': 'walk', 'docs': [text]})
         for p, n in root.ayns.nodes_with_paths():
-            if root.ayns.get_node(p) is not n:
-                R.fail('bounded:C17.node-reported-by-the-walk-is-the-one-found-at-its-path', f'doc={text!r}: path {list(p)!r}', {'family': 'walk', 'docs': [text]})
+            try:
+                found = root.ayns.get_node(p)
+            except Exception as e:
+                found = e
+            if found is not n:
+                R.fail('bounded:C09+C17.node-reported-by-the-walk-is-the-one-found-at-its-path', f'doc={text!r}: path {list(p)!r}', {'family': 'walk', 'docs': [text]})
                 break
             s = NodePath.get_str_path(p)
             back = list(NodePath.get_list_path(s))
@@ -227,7 +231,7 @@ def run_walk(repo, tier, seed, only=None):
 
 
 def register3(R):
-    R.tasks.append(Bounded('bounded:C17-walk-lookup-and-path-text', ('C17', 'C14'), run_walk,
+    R.tasks.append(Bounded('bounded:C17-walk-lookup-and-path-text', ('C17', 'C14', 'C09'), run_walk,
                            'parsed documents of depth<=3 with mapping, list, function, path and placeholder nodes; quick 200 / thorough 3000 trees; path components alphanumeric names and integers',
                            stands_in_for='ComposedNode.nodes_with_paths (nested generator loops; its contract is ASSUMED by Config.check_missing and _require_all_new), get_node/_get_node, NodePath.split_path/join_path (regular expressions)'))
 
